@@ -17,7 +17,7 @@ RULE = ("a condition of kind PINN / Mean / SingleModule(custom error+reduce) / A
         "the analytic one; the returned loss equals R-reduce of the residual the probe returned (mean of row-wise sum of squares / "
         "plain mean / user error+reduce / weighted by the adaptive layer / stated norm and root per batch or over the full data set). "
         "non-trivial = >= 1 evaluation judged; distinct = (kind, declared order, static mode, #data functions, parameter, #evals, fired faults)")
-ASSUMPTIONS = ["HPM and DeepONet conditions are not generated (DeepONet algebra is C09's subject)",
+ASSUMPTIONS = ["HPM conditions are not generated; DeepONet conditions (PIDeepONetCondition / DeepONetSingleModuleCondition on a real small DeepONet, 12 % of the cases) are judged on the returned loss only: documented mean over functions and points of the squared residual summed over components, recomputed on a twin network with the hand-evaluated input functions fixed through fix_branch_input",
                "adaptive samplers inside conditions are excluded (F32/F33 of DESIGN.md: loud IndexError/AttributeError)"]
 COMPONENTS = {"real": ["torchphysics conditions, samplers, UserFunction, Points, PointsDataLoader"],
               "owned_by_simulator": ["sampler draws (SimRNG)", "number of evaluations straddling the resample interval"],
@@ -29,15 +29,29 @@ def budget(tier):
 
 
 def gen_case(seed, tier="quick"):
+    from ..core.seed import rnd
+    if rnd(seed, "engine").random() < 0.12:
+        return cond_cases.gen_c04_don(seed)
     return cond_cases.gen_c04(seed)
 
 
 def run_case(case):
+    if case.get("engine") == "donsim":
+        from .. import donsim
+        return donsim.run_c04_don(case)
     return condsim.run_c04(case)
 
 
 def shrink(case):
     import copy
+    if case.get("engine") == "donsim":
+        if case["evals"] > 1:
+            yield dict(case, evals=1)
+        if len(case["fsets"][0]["ks"]) > 1:
+            yield dict(case, fsets=[dict(case["fsets"][0], ks=case["fsets"][0]["ks"][:1])])
+        if case.get("udim", 1) > 1:
+            yield dict(case, udim=1)
+        return
     if case.get("fault"):
         yield dict(case, fault=None)
     if case["evals"] > 1:
